@@ -584,6 +584,147 @@ def run_layout(case, elems, sigs, recs):
     return calls
 
 
+# ------------------------------------------------------------------ broadcasting of two operands (C03)
+BROADCAST_OPS = {
+    "add": ("vec", lambda a, b: a.add(b)), "add-operator": ("vec", lambda a, b: a + b), "subtract": ("vec", lambda a, b: a.subtract(b)),
+    "dot": ("num", lambda a, b: a.dot(b)), "deltaphi": ("num", lambda a, b: a.deltaphi(b)), "equal": ("bool", lambda a, b: a.equal(b)),
+}
+BROADCAST_OPS3 = {"deltaR": ("num", lambda a, b: a.deltaR(b)), "cross": ("vec", lambda a, b: a.cross(b)), "deltaangle": ("num", lambda a, b: a.deltaangle(b))}
+BROADCAST_SCALAR_OPS = {
+    "scale": ("vec", lambda a, f: a.scale(f)), "mul-operator": ("vec", lambda a, f: a * f), "rotateZ": ("vec", lambda a, f: a.rotateZ(f)),
+}
+BROADCAST_SCALAR_OPS4 = {"boostZ": ("vec", lambda a, f: a.boostZ(beta=f / 4.0))}
+
+
+def run_broadcast(case, elems, sigs, recs):
+    import awkward as ak
+    import vector
+    from . import c03x
+
+    calls = 0
+    lib, sa_shape, sb_shape, ok = case["lib"], case["sa"], case["sb"], case["ok"] == "T"
+    npool = len(elems)
+    if lib == "np":
+        na, nb = int(numpy.prod(sa_shape)), int(numpy.prod(sb_shape))
+    elif lib == "ak-jag-flat":
+        na, nb = sum(sa_shape), sb_shape[0]
+    else:
+        na, nb = sum(sa_shape), sum(sb_shape)
+    ida = [(q % npool) + 1 for q in range(na)]
+    idb = [((3 * q + 1) % npool) + 1 for q in range(nb)]
+    factors = [0.25 * ((5 * q) % 7 - 3) for q in range(nb)]
+    h = abs(hash(json.dumps(case, sort_keys=True)))
+    for k in range(len(sigs)):
+        sa = sigs[k]
+        dim = len(sa) + 1
+        sb = [s for s in sigs if len(s) == len(sa)][(h + k) % len([s for s in sigs if len(s) == len(sa)])]
+        if not representable_all(elems, ida, sa) or not representable_all(elems, idb, sb):
+            continue
+        fa = "momentum" if (h + k) % 2 else "generic"
+        fb = "momentum" if (h + k) % 3 == 0 else "generic"
+
+        def build(ids, sig, flavor, shape, kind):
+            names = names_of(sig, flavor)
+            rows = [stored_row(elems, e, sig) for e in ids]
+            if kind == "np":
+                return vector.array({nm: numpy.array([r[i] for r in rows], dtype=float).reshape(shape) for i, nm in enumerate(names)})
+            recs_ = [dict(zip(names, r)) for r in rows]
+            if kind == "ak-flat":
+                return vector.Array(ak.Array(recs_)) if recs_ else None
+            probe = dict(zip(names, stored_row(elems, 1, sig)))
+            arr = ak.unflatten(ak.Array(recs_ + [probe]), list(shape) + [1])[: len(shape)]
+            return vector.Array(arr)
+
+        def scalars(shape, kind):
+            if kind == "np":
+                return numpy.array(factors, dtype=float).reshape(shape)
+            if kind == "ak-flat":
+                return ak.Array(numpy.array(factors, dtype=float))
+            return ak.unflatten(ak.Array(numpy.array(factors + [0.0], dtype=float)), list(shape) + [1])[: len(shape)]
+
+        objs_a = [c03x.obj_of(elem_cart(elems, e, dim), sa, fa) for e in ida]
+        objs_b = [c03x.obj_of(elem_cart(elems, e, dim), sb, fb) for e in idb]
+        if lib == "np":
+            A = build(ida, sa, fa, sa_shape, "np")
+            Bs = [("np", build(idb, sb, fb, sb_shape, "np"))]
+            Fs = [("np", scalars(sb_shape, "np"))]
+        elif lib == "ak-jag-flat":
+            A = build(ida, sa, fa, sa_shape, "ak-jag")
+            Bs = [("ak-flat", build(idb, sb, fb, sb_shape, "ak-flat")), ("np-flat", build(idb, sb, fb, (nb,), "np"))]
+            Fs = [("ak-flat", scalars(sb_shape, "ak-flat")), ("np-flat", scalars((nb,), "np"))]
+        else:
+            A = build(ida, sa, fa, sa_shape, "ak-jag")
+            Bs = [("ak-jag", build(idb, sb, fb, sb_shape, "ak-jag"))]
+            Fs = [("ak-jag", scalars(sb_shape, "ak-jag"))]
+        ops = dict(BROADCAST_OPS)
+        sops = dict(BROADCAST_SCALAR_OPS)
+        if dim >= 3:
+            ops.update(BROADCAST_OPS3)
+        if dim == 4:
+            ops.pop("cross", None)
+            sops.update(BROADCAST_SCALAR_OPS4)
+        jobs = [(name, rk, f, bk, B, objs_b) for name, (rk, f) in ops.items() for bk, B in Bs if B is not None]
+        jobs += [(name, rk, f, bk, F, factors) for name, (rk, f) in sops.items() for bk, F in Fs]
+        for name, rk, f, bk, B, refs_b in jobs:
+            base = {"op": "broadcast:" + name, "sig": [sa, sb], "tag": "broadcast", "lib": lib, "bkind": bk, "shapes": [sa_shape, sb_shape],
+                    "flavors": [fa, fb]}
+            calls += 1
+            try:
+                with warnings.catch_warnings(), numpy.errstate(all="ignore"):
+                    warnings.simplefilter("ignore")
+                    out = f(A, B)
+            except Exception as ex:
+                if ok:
+                    recs.append(dict(base, kind="exception", error=f"{type(ex).__name__}: {ex}"[:300]))
+                continue
+            if not ok:
+                recs.append(dict(base, kind="incompatible-operands-accepted", got=repr(out)[:200]))
+                continue
+            # structure
+            if lib == "np":
+                shape = tuple(out.shape) if hasattr(out, "shape") else None
+                if shape != tuple(case["rshape"]):
+                    recs.append(dict(base, kind="wrong-result-shape", got=shape, want=case["rshape"]))
+                    continue
+            else:
+                counts = [len(x) for x in ak.to_list(out)]
+                if counts != list(case["rshape"]):
+                    recs.append(dict(base, kind="wrong-list-lengths", got=counts, want=case["rshape"]))
+                    continue
+            # elements
+            if rk == "vec":
+                if not isinstance(out, vector.Vector):
+                    recs.append(dict(base, kind="not-a-vector", got=type(out).__name__))
+                    continue
+                rsig = coords.sig_of(out)
+                if isinstance(out, ak.Array):
+                    flat = [d for lst in ak.to_list(out) for d in lst]
+                    got = [(rsig, [float(d[nm]) for nm in coords.field_names(rsig)]) for d in flat]
+                else:
+                    cols = list(out.azimuthal.elements) + (list(out.longitudinal.elements) if len(rsig) > 1 else []) + (list(out.temporal.elements) if len(rsig) > 2 else [])
+                    cols = [numpy.asarray(c_).ravel() for c_ in cols]
+                    got = [(rsig, [float(c_[i]) for c_ in cols]) for i in range(len(cols[0]))]
+            elif isinstance(out, ak.Array):
+                got = [x for lst in ak.to_list(out) for x in lst]
+            else:
+                got = [x.item() for x in numpy.asarray(out).ravel()]
+            if len(got) != len(case["posa"]):
+                recs.append(dict(base, kind="wrong-number-of-elements", got=len(got), want=len(case["posa"])))
+                continue
+            for q, (pa, pb) in enumerate(zip(case["posa"], case["posb"])):
+                with warnings.catch_warnings(), numpy.errstate(all="ignore"):
+                    warnings.simplefilter("ignore")
+                    try:
+                        ref = c03x.ref_value(rk, f(objs_a[pa], refs_b[pb] if refs_b is objs_b else numpy.float64(refs_b[pb])))
+                    except Exception:
+                        continue
+                if not c03x.compare(rk, got[q], ref, 1e4):
+                    recs.append(dict(base, kind="element-pairs-wrong-operands", index=q, pair=[pa, pb], got=repr(got[q])[:160], want=repr(ref)[:160]))
+                    break
+    return calls
+
+
+
 def _iter_records(arr):
     import awkward as ak
 
@@ -620,6 +761,12 @@ def worker(args):
                 h = hash(json.dumps(case, sort_keys=True))
                 sigs = [sigs[(h + 7 * k) % len(sigs)] for k in range(6)]
             out["calls"] += run_index(case, elems, sigs, out["records"])
+        elif part == "broadcast":
+            sigs = [s for n in (2, 3, 4) for s in coords.signatures(n)]
+            if sigs_mode != "all":
+                h = hash(json.dumps(case, sort_keys=True))
+                sigs = [sigs[(h + 3 * k) % len(sigs)] for k in range(4)] + [sigs[0]]
+            out["calls"] += run_broadcast(case, elems, sigs, out["records"])
         else:
             sigs = [s for n in (2, 3, 4) for s in coords.signatures(n)]
             if sigs_mode != "all":
